@@ -1,6 +1,6 @@
 //! C05 — forged SRTP/SRTCP is rejected and a rejection never disturbs the receiver.
 //! Script sessions: 0 = sender, 1 = receiver A (genuine ⊎ forged traffic), 2 = receiver B (genuine
-//! only); all hold the same keys. The oracle (on the REAL `SrtpSession`s): every forged packet is
+//! only); the receivers' rx keys are the sender's tx keys (the other direction uses different keying material). The oracle (on the REAL `SrtpSession`s): every forged packet is
 //! rejected, A and B give the same answer on every genuine packet, and their context tables agree.
 use super::c04::script::*;
 use crate::{Args, Rng, Run};
@@ -42,6 +42,12 @@ fn region(is_rtcp: bool, prof: &str, hdr_len: usize, len: usize, off: usize) -> 
 
 struct Case { ops: Vec<Op>, kind: &'static str }
 
+/// context ages are real time + back-dating in whole seconds: differences below this are scheduling noise
+const AGE_TOLERANCE_MS: u64 = 800;
+fn ages_differ(a: &[(u32, u64)], b: &[(u32, u64)]) -> bool {
+    a.len() != b.len() || a.iter().zip(b.iter()).any(|(x, y)| x.0 != y.0 || x.1.abs_diff(y.1) > AGE_TOLERANCE_MS)
+}
+
 /// Generator hygiene: a "forged" op whose mutation happens to leave the bytes equal to a genuine
 /// protected packet (flip beyond the end, truncation to full length, same sequence number…) is a
 /// genuine delivery to A only — not a forgery. Such ops are dropped. (Protect outputs do not depend
@@ -73,6 +79,7 @@ fn emit(run: &mut Run, stream: &str, c: &Case) {
     let mut pending: Option<(Src, bool, Res)> = None;
     for (i, op) in c.ops.iter().enumerate() {
         let before = match op { Op::UnprotectRtp(s, _) | Op::UnprotectRtcp(s, _) => Some((w.sess[*s].verif_rx_snapshot(), w.sess[*s].verif_tx_snapshot())), _ => None };
+        let ages_before = match op { Op::UnprotectRtp(s, _) | Op::UnprotectRtcp(s, _) => Some(w.sess[*s].verif_ctx_ages_ms(false)), _ => None };
         let r = w.exec(op, false);
         // PROPERTY (2'), evaluated directly: an operation that returned an error changed NOTHING in the session
         if let (Some((rx0, tx0)), Op::UnprotectRtp(s, src) | Op::UnprotectRtcp(s, src)) = (before, op) {
@@ -82,6 +89,15 @@ fn emit(run: &mut Run, stream: &str, c: &Case) {
                     let kind = match src { Src::Mutated(_, m) => mut_kind(m), Src::Lit(_) => "literal", Src::Slot(_) => "authentic" };
                     run.fail(&format!("state-changed-by-rejected:{}:{}:{kind}", if matches!(op, Op::UnprotectRtcp(..)) { "rtcp" } else { "rtp" }, w.prof[*s]),
                         &case, &format!("op {i}: {} → {} ; rx {:?} → {:?}", op.text(), r.text(), rx0, rx1));
+                }
+                // … including the time stamps: a rejected packet neither refreshes nor ages a context
+                // (ages are wall-clock + back-dating; anything beyond scheduling noise is a change)
+                if let Some(a0) = &ages_before {
+                    let a1 = w.sess[*s].verif_ctx_ages_ms(false);
+                    if a0.len() == a1.len() && a0.iter().zip(a1.iter()).any(|(x, y)| x.0 != y.0 || x.1.abs_diff(y.1) > AGE_TOLERANCE_MS) {
+                        run.fail(&format!("last-use-changed-by-rejected:{}:{}", if matches!(op, Op::UnprotectRtcp(..)) { "rtcp" } else { "rtp" }, w.prof[*s]),
+                            &case, &format!("op {i}: {} → {}", op.text(), r.text()));
+                    }
                 }
                 run.count("rejections_checked_state_unchanged");
             }
@@ -130,6 +146,9 @@ fn emit(run: &mut Run, stream: &str, c: &Case) {
                     let strip = |v: &Vec<(u32, u32, Option<u16>, u32)>| v.iter().map(|(a, b, c, _)| (*a, *b, *c)).collect::<Vec<_>>();
                     if strip(arx) != strip(rx) {
                         run.fail(&format!("state-differs:{}:rollover-or-table:after-{last_forged}", w.prof[B]), &case, &format!("A {:?} / B {:?}", arx, rx));
+                    } else if ages_differ(&w.sess[A].verif_ctx_ages_ms(false), &w.sess[B].verif_ctx_ages_ms(false)) {
+                        run.fail(&format!("state-differs:{}:last-use-times:after-{last_forged}", w.prof[B]), &case,
+                            &format!("A {:?} / B {:?}", w.sess[A].verif_ctx_ages_ms(false), w.sess[B].verif_ctx_ages_ms(false)));
                     } else if arx != rx {
                         run.fail(&format!("state-differs:{}:srtcp-index:after-{last_forged}", w.prof[B]), &case, &format!("A {:?} / B {:?}", arx, rx));
                     }
@@ -322,6 +341,28 @@ fn eviction(run: &mut Run, rng: &mut Rng, prof: &str, i: usize, idle: u64, nforg
     emit(run, "evict", &Case { ops, kind: "eviction-by-forged-ssrcs" });
 }
 
+/// A forged packet that carries a KNOWN (live, visible in clear) SSRC while OTHER contexts are stale: the
+/// table is above the high-water mark, G (ROC 1) and everything else idled 61 s, then forged copies of a
+/// known stream's RTP / RTCP packet reach A, then G resumes first on both receivers. If a packet could run
+/// the idle eviction before it is authenticated, A would have lost G.
+fn known_ssrc_forgery_when_stale(run: &mut Run, rng: &mut Rng, prof: &str, i: usize, via_rtcp: bool) {
+    let mut ops = new_three(rng, i, prof);
+    let g = 0x0a0b_0c0du32;
+    let mut slot = 0;
+    for k in 0..33u32 { ops.push(Op::ProtectRtp(S, PktSpec::simple(5, 0x2000 + k, vec![1, 2, 3]))); both(&mut ops, false, slot); slot += 1; }
+    ops.push(Op::ProtectRtcp(S, Src::Lit(rtcp_packet(rng, 0x2000, 12)))); both(&mut ops, true, slot); let known_rtcp = slot; slot += 1;
+    for seq in [65000u16, 65500, 100, 200] { ops.push(Op::ProtectRtp(S, PktSpec::simple(seq, g, vec![seq as u8, 2, 3]))); both(&mut ops, false, slot); slot += 1; }
+    ops.push(Op::Snap(A)); ops.push(Op::Snap(B));
+    ops.push(Op::Tick(61));
+    for n in 0..3usize {
+        if via_rtcp { forged(&mut ops, true, known_rtcp, Mut::Flip(70 + n)); } else { forged(&mut ops, false, n, Mut::Flip(100 + n)); forged(&mut ops, false, n, Mut::Seq(900 + n as u16)); }
+    }
+    ops.push(Op::Snap(A)); ops.push(Op::Snap(B));
+    for seq in [300u16, 301] { ops.push(Op::ProtectRtp(S, PktSpec::simple(seq, g, vec![seq as u8, 7]))); both(&mut ops, false, slot); slot += 1; }
+    ops.push(Op::Snap(A)); ops.push(Op::Snap(B));
+    emit(run, "evict", &Case { ops, kind: "forged-known-ssrc-while-others-stale" });
+}
+
 /// Forged packets addressed to a KNOWN SSRC must not keep its context alive: the table is above the
 /// high-water mark, the genuine stream G (ROC 1) is idle for 61 s in total, but A sees forged G
 /// packets half-way. When another stream's packet triggers the eviction, A and B must agree on G.
@@ -383,7 +424,8 @@ fn at_the_cap(run: &mut Run, rng: &mut Rng, prof: &str, i: usize) {
     ops.push(Op::ProtectRtp(S, PktSpec::simple(2, 0x5000, vec![7, 7]))); both(&mut ops, false, slot); let known = slot; slot += 1;
     ops.push(Op::ProtectRtp(S, PktSpec::simple(1, 0x9999, vec![8, 8]))); both(&mut ops, false, slot); let fresh = slot; slot += 1;
     for n in 0..6u32 { forged(&mut ops, false, fresh, Mut::Ssrc(0x7000_0000 + n)); forged(&mut ops, false, known, Mut::Flip(100 + n as usize)); }
-    ops.push(Op::ProtectRtcp(S, Src::Lit(rtcp_packet(rng, 0x9998, 12)))); both(&mut ops, true, slot); slot += 1;
+    ops.push(Op::ProtectRtcp(S, Src::Lit(rtcp_packet(rng, 0x9998, 12)))); both(&mut ops, true, slot); let rtcp_new = slot; slot += 1;
+    for n in 0..4u32 { forged(&mut ops, true, rtcp_new, Mut::RtcpSsrc(0x7100_0000 + n)); forged(&mut ops, true, rtcp_new, Mut::Flip(66 + n as usize)); }
     ops.push(Op::ProtectRtp(S, PktSpec::simple(3, 0x5000, vec![9]))); both(&mut ops, false, slot);
     emit(run, "forge", &Case { ops, kind: "at-the-context-cap" });
 }
@@ -435,6 +477,8 @@ pub fn run(args: &Args) {
         }
         refresh_attack(&mut run, &mut rng, prof, pi, false);
         refresh_attack(&mut run, &mut rng, prof, pi, true);
+        known_ssrc_forgery_when_stale(&mut run, &mut rng, prof, pi, false);
+        known_ssrc_forgery_when_stale(&mut run, &mut rng, prof, pi, true);
         cross_and_padding(&mut run, &mut rng, prof, pi);
         at_the_cap(&mut run, &mut rng, prof, pi);
     }
@@ -442,7 +486,7 @@ pub fn run(args: &Args) {
     for i in 0..ni { let c = interleaved(&mut rng, i, PROFILES[i % 4]); emit(&mut run, "forge", &c); }
     let nc = if t { 2000 } else { 40 };
     for i in 0..nc { let c = churn(&mut rng, i, PROFILES[i % 4]); emit(&mut run, "evict", &c); }
-    run.notes.insert("sessions".into(), serde_json::json!("0 sender, 1 receiver A (genuine + forged), 2 receiver B (genuine only); equal keys"));
+    run.notes.insert("sessions".into(), serde_json::json!("0 sender, 1 receiver A (genuine + forged), 2 receiver B (genuine only); sender.tx = receivers.rx, the other direction keyed differently"));
     run.notes.insert("clock".into(), serde_json::json!("time is driven through SrtpSession::verif_advance_clock (back-dates last_used); the 61 s eviction scenario therefore runs in both tiers"));
     run.finish();
 }
